@@ -9,6 +9,7 @@ import (
 	"math"
 	"math/rand/v2"
 	"os"
+	"path/filepath"
 	"reflect"
 	"runtime"
 	"sort"
@@ -262,9 +263,9 @@ func c26Valid(dec string, r *rand.Rand) []byte {
 		v := c26ReposMap(r, size)
 		enc, _ = v.MarshalBinary()
 	case "BranchesRepos":
-		v := c26BranchesRepos(r, size)
-		for i := range v.List { // keep bitmaps small here
-			v.List[i].Repos = roaring.BitmapOf(c26ID(r), c26ID(r))
+		var v query.BranchesRepos
+		for i := 0; i < size; i++ { // small bitmaps here
+			v.List = append(v.List, query.BranchRepos{Branch: rbstr(r), Repos: roaring.BitmapOf(c26ID(r), c26ID(r))})
 		}
 		enc, _ = v.MarshalBinary()
 	case "FileNameSet":
@@ -442,9 +443,19 @@ type c26Logged struct {
 }
 
 type c26Arg struct {
-	Batch, Size, Start, End int
-	Skip                    []string
-	StallMS                 int
+	File       string // the batch, written by the parent before the child starts
+	Batch      int
+	Start, End int
+	Skip       []string
+	StallMS    int
+}
+
+func c26WriteBatch(path string, cases []c26Case) error {
+	b, err := json.Marshal(cases)
+	if err != nil {
+		return err
+	}
+	return os.WriteFile(path, b, 0o644)
 }
 
 // c26SetMemCap caps the address space of this process at its current size plus
@@ -468,8 +479,13 @@ func c26Child(rec *kit.Rec) {
 	if err := json.Unmarshal([]byte(kit.ChildArg()), &a); err != nil {
 		panic(err)
 	}
+	var cases []c26Case
+	if b, err := os.ReadFile(a.File); err != nil {
+		panic(err)
+	} else if err := json.Unmarshal(b, &cases); err != nil {
+		panic(err)
+	}
 	c26SetMemCap()
-	cases := c26Batch(rec.Seed, a.Batch, a.Size)
 	skip := map[string]bool{}
 	for _, s := range a.Skip {
 		skip[s] = true
@@ -597,8 +613,8 @@ func TestVerif_C26(t *testing.T) {
 	// Part 2: hostile decodes in children
 	nBatches := rec.N(5, 60)
 	batchSize := rec.N(10000, 20000)
-	stall := 500                  // ms: a decode slower than this ends the child; the case is then re-run alone
-	confirm := rec.N(5000, 30000) // ms: budget of the re-run
+	stall := 500                                       // ms: a decode slower than this ends the child; the case is then re-run alone
+	confirm := rec.N(5000, 30000)                      // ms: budget of the re-run
 	env := []string{"GOMEMLIMIT=3GiB", "GOMAXPROCS=2"} // 2 Ps: ReadMemStats stops the world twice per decode
 	skip := map[string]bool{}
 	sightings := map[string]int{} // class -> stalls + deaths
@@ -614,9 +630,15 @@ func TestVerif_C26(t *testing.T) {
 	}
 batches:
 	for b := 0; b < nBatches; b++ {
+		cases := c26Batch(rec.Seed, b, batchSize)
+		file := filepath.Join(rec.Work, fmt.Sprintf("c26-batch-%d.json", b))
+		if err := c26WriteBatch(file, cases); err != nil {
+			rec.Violation("harness/batch-file", err.Error(), nil)
+			break
+		}
 		start := 0
 		for start < batchSize {
-			arg, _ := json.Marshal(c26Arg{Batch: b, Size: batchSize, Start: start, End: batchSize, Skip: skipList(), StallMS: stall})
+			arg, _ := json.Marshal(c26Arg{File: file, Batch: b, Start: start, End: batchSize, Skip: skipList(), StallMS: stall})
 			t0 := time.Now()
 			res := rec.RunChild("TestVerif_C26", "decode", string(arg), env, 20*time.Minute)
 			if os.Getenv("VERIF_DEBUG") != "" {
@@ -635,7 +657,6 @@ batches:
 				break
 			}
 			deaths++
-			cases := c26Batch(rec.Seed, lc.Batch, batchSize)
 			in := cases[lc.I].In
 			w := map[string]any{"decoder": lc.Dec, "class": lc.Class, "input_hex": hex.EncodeToString(in[:min(len(in), 8192)]), "input_len": len(in), "batch": lc.Batch, "index": lc.I,
 				"child_exit": res.Exit, "child_signal": res.Signal, "child_output": clip(res.Tail, 4000),
@@ -655,7 +676,7 @@ batches:
 				rec.Count("hostile_stalls_not_rerun", 1)
 			default:
 				confirmed[lc.Dec]++
-				arg1, _ := json.Marshal(c26Arg{Batch: lc.Batch, Size: batchSize, Start: lc.I, End: lc.I + 1, StallMS: confirm})
+				arg1, _ := json.Marshal(c26Arg{File: file, Batch: lc.Batch, Start: lc.I, End: lc.I + 1, StallMS: confirm})
 				t1 := time.Now()
 				res1 := rec.RunChild("TestVerif_C26", "decode1", string(arg1), env, 20*time.Minute)
 				if os.Getenv("VERIF_DEBUG") != "" {
@@ -680,9 +701,11 @@ batches:
 			start = lc.I + 1
 			if deaths >= maxDeaths {
 				rec.Note("stopped_early", fmt.Sprintf("%d children stalled or died: remaining hostile inputs not tried (inconclusive tail)", deaths))
+				os.Remove(file)
 				break batches
 			}
 		}
+		os.Remove(file)
 	}
 	rec.Note("classes_skipped_after_stall_or_death", skipList())
 }
